@@ -22,7 +22,7 @@ TRUSTED = ["stdlib ast", "html.escape(s, quote=True) neutralises & < > \" ' (Pyt
            "callers outside the package do not call the internal builders with forged level strings (stated scope of the property: CLI and save_report)"]
 
 BUILDER_MODULES = ("cm_colors.cli.html_report", "cm_colors.core.visualiser")
-FLOORS = {"cli.html_report.generate_report": 10, "core.visualiser.to_html": 12, "core.visualiser.to_html_bulk": 1}
+FLOORS = {"cli.html_report": 10, "core.visualiser": 13}     # template holes per builder module (helpers a builder delegates to count for their module)
 
 
 def run(project, chk):
@@ -74,7 +74,7 @@ def run(project, chk):
     for short, floor in FLOORS.items():
         if chk.findings:
             break   # a reported violation already explains a changed hole count
-        chk.floor(f"template holes judged in {short}", per_fn.get(short, 0), floor)
+        chk.floor(f"template holes judged in {short}", sum(v for k, v in per_fn.items() if k.startswith(short + ".")), floor)
     for (fi, node, ctx) in t.fragment_errors:
         chk.fail("T3", fi.short, norm_text(node)[:80], project.loc(fi.module, node), f"template fragment ends in {ctx}: the context of later holes depends on run-time concatenation order")
     if not t.fragment_errors:
